@@ -166,6 +166,9 @@ def build_pair(case):
             b["ud"] = {"per": per}
             if case.get("default"):
                 b["ud"]["default"] = case["default"]
+        if case.get("ref_per"):
+            rb = blocks_of(ref, "SOLUTION")[case["sol"]][2]
+            rb["ud"] = {"per": case["ref_per"]}
         if case.get("spread"):
             to_spread(var, case["spread"])
     elif fam == "water":
@@ -290,14 +293,16 @@ def row_key(row, solmap, mixmap=None):
     return (row["sim"], row["state"], row["step"], s)
 
 
-def close(a, b, factor=1.0):
-    """variant value b against reference value a (b should be factor*a)."""
+def close(a, b, factor=1.0, scale=0.0):
+    """variant value b against reference value a (b should be factor*a).  `scale` is only given for the charge
+    balance: a signed sum whose terms have the size of the ionic strength, so that a balanced solution reports
+    rounding noise (1e-15) instead of 0; it is compared relative to the size of its terms."""
     a = a * factor
     if a == b:
         return True
     if abs(a) < TINY and abs(b) < TINY:
         return True
-    return abs(a - b) <= TOL * max(abs(a), abs(b))
+    return abs(a - b) <= TOL * max(abs(a), abs(b), scale)
 
 
 def compare(base, ref, var, info):
@@ -334,7 +339,8 @@ def compare(base, ref, var, info):
                     if x != y:
                         bad.append((h, k, x, y, kind))
                     continue
-                if not close(x, y, f if kind == "x" else 1.0):
+                scale = abs(a["mu"] * a["water"] * f) if kind == "xs" else 0.0
+                if not close(x, y, f if kind[0] == "x" else 1.0, scale):
                     bad.append((h, k, x, y, kind))
     return bad, None
 
@@ -403,11 +409,11 @@ def run_case(case):
         if structural:
             what = structural
         elif bad:
-            worst = max(bad, key=lambda t: (abs(t[2] * (info["factor"] if t[4] == "x" else 1.0) - t[3]) / max(abs(t[3]), abs(t[2] * (info["factor"] if t[4] == "x" else 1.0)), 1e-300))
+            worst = max(bad, key=lambda t: (abs(t[2] * (info["factor"] if t[4][0] == "x" else 1.0) - t[3]) / max(abs(t[3]), abs(t[2] * (info["factor"] if t[4][0] == "x" else 1.0)), 1e-300))
                         if isinstance(t[2], (int, float)) and isinstance(t[3], (int, float)) else 1e9)
             lines = ["%d of the compared cells differ by more than 1e-8 relative (factor for extensive cells: %r)" % (len(bad), info["factor"])]
             for h, k, x, y, kind in bad[:8] + ([worst] if worst not in bad[:8] else []):
-                lines.append("  %-14s row %s  reference %r  equivalent %r  (%s)" % (h, k, x, y, "extensive" if kind == "x" else "intensive"))
+                lines.append("  %-14s row %s  reference %r  equivalent %r  (%s)" % (h, k, x, y, "extensive" if kind[0] == "x" else "intensive"))
             what = "\n".join(lines)
         if what:
             what += "\n--- reference input\n%s--- equivalent input\n%s" % (ref_t, var_t)
@@ -458,24 +464,34 @@ def unit_cases(name, base, tier):
                             continue
                         for default in ([None, fam_units[1]] if full else [None]):
                             out.append(mk(per={el: {"unit": u}}, **({"default": default} if default else {})))
-                # (c) "as" formulas, (d) gfw overrides: mass units only
+                # (c) "as" formulas, (d) gfw overrides: mass units only.  Per kg water the reference is the plain mol/kgw
+                # description.  Per litre / per kg solution the stated formula also fixes the solute mass that enters the
+                # conversion to kg water, so there the reference carries the same formula in another mass unit.
                 mass = [u for u in fam_units if "g/" in u or u.startswith("pp")]
                 for el in els:
                     for formula in AS.get(el, []):
-                        for u in (mass if full else mass[1:2]):
-                            out.append(mk(per={el: {"unit": u, "as": formula}}))
-                        out.append(mk(default=mass[1], per={el: {"as": formula}}))
+                        if den == "kgw":
+                            for u in (mass if full else mass[1:2]):
+                                out.append(mk(per={el: {"unit": u, "as": formula}}))
+                            out.append(mk(default=mass[1], per={el: {"as": formula}}))
+                        else:
+                            for u in mass[1:]:
+                                out.append(mk(per={el: {"unit": u, "as": formula}}, ref_per={el: {"unit": mass[0], "as": formula}}))
                     for g in (GFWS if full else GFWS[:1]):
-                        for u in (mass if full else mass[1:2]):
-                            out.append(mk(per={el: {"unit": u, "gfw": g}}))
-                        out.append(mk(default=mass[1], per={el: {"gfw": g}}))
+                        if den == "kgw":
+                            for u in (mass if full else mass[1:2]):
+                                out.append(mk(per={el: {"unit": u, "gfw": g}}))
+                            out.append(mk(default=mass[1], per={el: {"gfw": g}}))
+                        else:
+                            for u in mass[1:]:
+                                out.append(mk(per={el: {"unit": u, "gfw": g}}, ref_per={el: {"unit": mass[0], "gfw": g}}))
                 # (e) every element in its own unit: all cyclic assignments
                 allu = fam_units
                 for shift in range(len(allu)):
                     per = {}
                     for i, el in enumerate(els):
                         per[el] = {"unit": allu[(i + shift) % len(allu)]}
-                        if AS.get(el) and "g/" in per[el]["unit"]:
+                        if den == "kgw" and AS.get(el) and "g/" in per[el]["unit"]:
                             per[el]["as"] = AS[el][(i + shift) % len(AS[el])]
                     out.append(mk(per=per))
     return out
